@@ -399,6 +399,29 @@ def run(tier):
                 ck.instance("O7.pooled-roots", "%s push onto mark stack" % f.path, F.short_span(t[6]), ok=ok)
                 if not ok:
                     ck.finding("O7.pooled-roots", "O7.pooled-roots/" + f.path, F.short_span(t[6]), "`%s` pushes a slot onto the mark stack without the pooled check" % f.path)
+    # ---------------- O9 recycled root buffers are empty
+    import poolclean
+    ck.rule("O9.pool-buffers-empty", "a root buffer entering Space.guard_pool (push / insert / swap / replace) was cleared first; create_guard trusts pooled buffers", floor=1)
+    ck.anchor(any(fl["name"] == "guard_pool" for v in fx.adts.get("gc::Space", {}).get("variants", []) for fl in v["fields"]), "field gc::Space.guard_pool")
+    n9, _ = poolclean.rule(fx, ck, lambda g: g.file.endswith(GC), "guard_pool")
+    cg = fx.fns.get("gc::Space::<T>::create_guard")
+    if ck.anchor(cg is not None and any(t[1].get("d", "").endswith("GuardInner::<T>::with_storage") for _, t in cg.calls()), "Space::create_guard builds guards with_storage(pooled buffer)"):
+        for p, g in sorted(fx.fns.items()):
+            if g.derived:
+                continue
+            for bi, t in g.calls():
+                if t[1].get("d", "").endswith("GuardInner::<T>::with_storage"):
+                    ok = (g.parent if g.closure else g.path) == cg.path
+                    ck.instance("O9.pool-buffers-empty", "%s calls GuardInner::with_storage" % g.path, F.short_span(t[6]), ok=ok)
+                    if not ok:
+                        ck.finding("O9.pool-buffers-empty", "O9.with-storage-caller/" + (g.parent if g.closure else g.path), F.short_span(t[6]),
+                                   "`%s` builds a guard around a caller-chosen buffer: only Space::create_guard may, with a buffer popped from the (empty-buffer) pool" % g.path)
+    ctl9 = F.load_fixture()
+    nc, fc = poolclean.rule(ctl9, ck, lambda g: g.path.startswith("c13pool::"), "pool", emit=False)
+    got9 = sorted(k.split("/", 1)[1] for k, _, _ in fc)
+    if got9 != ["c13pool::Space::bad_return/push", "c13pool::Space::bad_swap/swap"]:
+        ck.closed_fail.append("O9 control failed: fixture reports %s (want bad_return/push and bad_swap/swap only)" % got9)
+    ck.note("O9 positive control: fixture bad_return and bad_swap reported; good_return, good_hoisted_clear and good_swap silent")
     ck.assume("internal Space methods run while the arena is alive (self is the Space)")
     import floorcount
     floorcount.rule(fx, ck)
